@@ -133,7 +133,10 @@ func (c *expCtx) fieldLine(msg string, num int, f *Field, oneofName string) {
 		ty = c.leafType(msg, f.Name, t)
 	}
 	req := f.Required || f.Primary
-	c.ls.add("field %s.%s num=%d json=%s type=%s card=%s opt=%v req=%v oneof=%s", msg, snake(f.Name), num, f.Name, ty, card, f.Optional, req, oneofName)
+	// a repeated field has no presence: "optional" on an array or map is accepted
+	// and leaves no trace in the contract
+	opt := f.Optional && card == "single"
+	c.ls.add("field %s.%s num=%d json=%s type=%s card=%s opt=%v req=%v oneof=%s", msg, snake(f.Name), num, f.Name, ty, card, opt, req, oneofName)
 }
 
 // object emits a message with the given fields; prepend are implicit leading
@@ -337,7 +340,8 @@ func actualMessage(md protoreflect.MessageDescriptor, ls *lineSet) {
 			card = "repeated"
 		}
 		oneofName := "-"
-		if oo := f.ContainingOneof(); oo != nil && !oo.IsSynthetic() {
+		if oo := f.ContainingOneof(); oo != nil && (!oo.IsSynthetic() || f.IsList() || f.IsMap()) {
+			// (a repeated field in any oneof, synthetic or not, is not a legal contract)
 			oneofName = string(oo.Name())
 		}
 		ls.add("field %s.%s num=%d json=%s type=%s card=%s opt=%v req=%v oneof=%s", md.FullName(), f.Name(), f.Number(), f.JSONName(), ty, card, f.HasOptionalKeyword(), isRequired(f), oneofName)
